@@ -215,6 +215,8 @@ def check(case):
     if not deep_same(view_attachments, exp_att):
       problems.append(('C10/live/attachments', '%s: view %r expected %r' % (when, view_attachments, exp_att)))
 
+  kept = {}
+
   def body(state):
     test = state.test_api
     last_was_write = False
@@ -239,6 +241,23 @@ def check(case):
           except Exception:  # pylint: disable=broad-except
             if not (d.get('validator') or d.get('cv')):  # in_range raises on non-numbers: the value is recorded nevertheless
               raise
+          flags['writes'] += 1
+          last_was_write = True
+        elif kind == 'regrow':
+          # the phase keeps the list it assigned, extends it in place and assigns the same object again
+          i = op[1] % len(names)
+          name, d = names[i], decls[i]
+          if d['dims'] or d['transform'] or d.get('validator') or d.get('cv'):
+            continue
+          obj = kept.get(name)
+          if obj is None:
+            obj = kept[name] = [1.5]
+          else:
+            obj.append(len(obj) + 0.5)
+          mo = model[name]
+          flags['override'] = flags['override'] or mo['set']
+          mo['set'], mo['value'] = True, list(obj)
+          test.measurements[name] = obj
           flags['writes'] += 1
           last_was_write = True
         elif kind == 'setc':
@@ -522,7 +541,9 @@ NUMERIC = st.one_of(st.integers(-5, 15), st.floats(-5, 15, allow_nan=False), st.
 
 @st.composite
 def ops(draw, decls):
-  kind = draw(st.sampled_from(['set', 'set', 'setc', 'setc', 'setc', 'attach', 'log', 'read_state', 'read_event', 'read_phase', 'read_state']))
+  kind = draw(st.sampled_from(['set', 'set', 'setc', 'setc', 'setc', 'attach', 'log', 'read_state', 'read_event', 'read_phase', 'read_state', 'regrow']))
+  if kind == 'regrow':
+    return ['regrow', draw(st.integers(0, 2))]
   if kind == 'set':
     i = draw(st.integers(0, len(decls) - 1)) if decls else 0
     numeric = bool(decls) and decls[i]['transform'] and decls[i]['transform'][0] in ('mul', 'prec')
